@@ -80,7 +80,7 @@ def gen_vm_program(rnd, size):
             elif k < 0.92 and not in_func and depth == 0 and len(files) < 4:
                 name = 'inc%d.bare' % len(files)
                 files[name] = None      # reserve the name (acyclic: a file only includes files created after it)
-                files[name] = {'statements': block(rnd.randint(1, 5), 1, False) + ([{'return': {}}, c08.log_stmt(tag('dead'))] if rnd.random() < 0.2 else [])}
+                files[name] = {'statements': block(rnd.choice([0, 1, 2, 3, 4, 5]), 1, False) + ([{'return': {}}, c08.log_stmt(tag('dead'))] if rnd.random() < 0.2 else [])}
                 incs = [{'url': name}] * rnd.choice([1, 1, 2, 3])
                 for inc in incs:
                     out.append({'include': {'includes': [inc]}})
@@ -205,6 +205,8 @@ def check_vm_program(model, files, seed):
 INC_FILES = {
     'inc1.bare': "systemLog('i1 start')\nkk = 0\nwhile kk < 3:\n    kk = kk + 1\n    systemLog('i1 ' + kk)\nendwhile\nsystemLog('i1 end')\n",
     'inc2.bare': "include 'inc1.bare'\nsystemLog('i2')\ninclude 'inc1.bare'\n",
+    'empty.bare': "",
+    'comment.bare': "# nothing but a comment\n\n",
     'inc3.bare': "function fromInc(aa):\n    systemLog('fromInc ' + aa)\n    return aa\nendfunction\nfromInc(1)\nfromInc(2)\nsystemLog('i3')\nreturn\nsystemLog('never')\n",
 }
 CALLBACK_PRELUDE = ["function chk(aa):", "    systemLog('chk a')", "    systemLog('chk b')", "    return aa > 1", "endfunction",
@@ -213,7 +215,8 @@ CALLBACK_PRELUDE = ["function chk(aa):", "    systemLog('chk a')", "    systemLo
 CALLBACK_CALLS = ["dataFilter(dd, 'chk(a)', objectNew('q', 1))", "dataFilter(dd, 'chk(a)')", "dataCalculatedField(dd, 'b', 'chk(a)', objectNew('q', 1))",
                   "dataCalculatedField(dd, 'b', 'chk(a)')", "arrayIndexOf(arrayNew(1, 2, 3), chk)", "dataJoin(dd, dd, 'chk(a)', null, false, objectNew('q', 1))",
                   "dataJoin(dd, dd, 'chk(a)')", "arraySort(arrayNew(3, 1, 2), chk)", "systemLog(arrayIndexOf(arrayNew(0, 1, 2, 3), one))",
-                  "systemLog(deep(6))", "dataFilter(dd, 'one(a)', objectNew('q', 1))", "systemLog(deep(3) + deep(2))"]
+                  "systemLog(deep(6))", "dataFilter(dd, 'one(a)', objectNew('q', 1))", "systemLog(deep(3) + deep(2))",
+                  "dataFilter(dd, 'chk(a)', objectNew())", "dataCalculatedField(dd, 'b', 'chk(a)', objectNew())", "dataJoin(dd, dd, 'chk(a)', null, false, objectNew())"]
 
 
 def gen_structured(rnd, size):
@@ -223,6 +226,10 @@ def gen_structured(rnd, size):
     for _ in range(rnd.choice([0, 1, 1, 2, 3])):
         extra.append("include '%s'" % rnd.choice(sorted(INC_FILES)))
         classes.add('include')
+    tail = []
+    if rnd.random() < 0.2:
+        tail = ["include '%s'" % rnd.choice(['empty.bare', 'comment.bare'])] * rnd.choice([1, 2])      # the run ENDS with an include that starts no statement
+        classes.add('include')
     if rnd.random() < 0.6:
         extra += CALLBACK_PRELUDE
         for _ in range(rnd.randint(1, 5)):
@@ -231,7 +238,7 @@ def gen_structured(rnd, size):
             classes.add('data-helper-with-variables' if 'objectNew(' in c and 'dd,' in c and "'q'" in c else 'callback')
     if pg.funcs:
         classes.add('direct-call')
-    return '\n'.join(extra) + '\n' + src, {k: v for k, v in globals0.items()}, classes
+    return '\n'.join(extra) + '\n' + src + '\n'.join(tail) + '\n', {k: v for k, v in globals0.items()}, classes
 
 
 def run_structured(model, limit, globals0):
